@@ -258,6 +258,15 @@ def run_one(ck, prog):
                     for ab, at in cctx.cfg.calls(lambda t: t.get("callee") in unit[kind]):
                         if at.get("t") is not None and cctx.cfg.dominates(at["t"], bb):
                             ok = True
+                    # ... or by the true edge of the bool-returning try-acquirer of that kind (`if inner.try_read() { Some(guard) }`)
+                    for ab, at in cctx.cfg.calls(lambda t: t.get("callee") in boolf[kind]):
+                        for sb in cctx.cfg.live_blocks():
+                            if cctx.cfg.term(sb)["k"] != "switch":
+                                continue
+                            for e in cctx.cfg.succ[sb]:
+                                for f in cctx.edge_facts(e):
+                                    if f[0] == "truth" and f[2] is True and isinstance(f[1], tuple) and f[1][0] == "call" and f[1][3] == ab and cctx.cfg.edge_dominates(e, bb):
+                                        ok = True
                     if not ok and prog.fns[caller]["kind"] == "Closure":
                         ok = closure_under_then(prog, cg, caller, boolf[kind])
                     ck.ob("C02.4", f"guard-after-acquire|{caller}", ok, fn=caller, site=cctx.site(bb),
